@@ -169,7 +169,7 @@ func c12(c *Check) {
 	c.Spec("C12/delete-all-indexes", Macros{}, FnSpec{Fn: agK + "Keeper.DeleteTokenPair", Effects: []Eff{
 		{Label: "pair", Callee: "keeper.(Keeper).deleteTokenPair", N: 1, Args: map[int]string{2: "aggregate/types.(TokenPair).GetID($2)"}},
 		{Label: "contract", Callee: "keeper.(Keeper).deleteERC20Map", N: 1, Args: map[int]string{2: "go-ethereum/common.HexToAddress($2.ERC20Address)"}},
-		{Label: "denoms", Callee: "keeper.(Keeper).deleteDenomMap", N: 1, Args: map[int]string{2: "$2.Denoms[(μ{-1} + 1)]"}},
+		{Label: "denoms", Callee: "keeper.(Keeper).deleteDenomMap", N: 1, Args: map[int]string{2: "$2.Denoms[μ{0}]"}},
 	}})
 
 	c.Rule("C12/who-writes-registry", "raw writes to the three registry prefixes happen only inside the accessor functions; accessors are called only from the registration functions, DeleteTokenPair, SetDenomsMap and InitGenesis; DeleteTokenPair only from the update proposal and the self-destruct clean-up of the two conversion entry points", 12)
